@@ -76,7 +76,7 @@ def run(sim: Sim) -> None:
     gap_name = sim.pick(sorted(GAP_FUNCTIONS), "gap")
     gap = GAP_FUNCTIONS[gap_name]
     explorable = games.explorable_ids(n)
-    budget = None if sim.flip(1, 2, "budget?") is False else 1 + sim.choose(len(explorable) + 1, "budget")
+    budget = None if sim.flip(1, 2, "budget?") is False else sim.choose(len(explorable) + 2, "budget")  # 0 = used up at once
     src_kind = sim.pick_weighted([("harness", 4), ("registry", 3), ("model", 2), ("unmatched", 1)], "source")
     restore = None
     exact = False
